@@ -129,18 +129,19 @@ namespace occa {
     if (offset + bytes <= size) {
       return slice(offset, bytes);
     } else {
-      resize(reserved + alignedBytes);
+      /*Free space is fragmented: pack the reservations even if the size stays the same*/
+      resize(reserved + alignedBytes, true);
       return slice(reserved, bytes);
     }
   }
 
-  void modeMemoryPool_t::resize(const udim_t bytes) {
+  void modeMemoryPool_t::resize(const udim_t bytes, const bool forcePacking) {
 
     OCCA_ERROR("Cannot resize memoryPool below current usage"
                "(reserved: " << reserved << ", bytes: " << bytes << ")",
                reserved <= bytes);
 
-    if (size == bytes) return; /*Nothing to do*/
+    if (size == bytes && !forcePacking) return; /*Nothing to do*/
 
     const udim_t alignedBytes = ((bytes + alignment - 1) / alignment) * alignment;
 
